@@ -38,16 +38,17 @@ Definition s_wpa_flags (i : wpa_info) : Z :=
     (Z.lor (s_or (map (s_suite_flag MSFT_OUI s_wpa_pairwise) (wi_unicast i)))
            (s_or (map (s_suite_flag MSFT_OUI s_wpa_akm) (wi_akms i)))).
 
-(* ---- element bodies: suites are 4 octets (OUI, type); counts are 16-bit little-endian, at most six
-   suites are kept; an element too short for its counts does not decode *)
+(* ---- element bodies: suites are 4 octets (OUI, type); counts are 16-bit little-endian; a list is
+   delimited by its declared count, of which at most the first six suites are kept; an element too short for its
+   declared counts does not decode *)
 Definition s_suite_at (b : list byte) (o : Z) : suite := (slice o 3 b, znth b (o + 3)).
 Fixpoint s_suites (n : nat) (b : list byte) (o : Z) : list suite :=
   match n with O => [] | S k => s_suite_at b o :: s_suites k b (o + 4) end.
 (* (suites, offset after them) *)
 Definition s_suite_list (b : list byte) (o : Z) : option (list suite * Z) :=
   if zlen b <? o + 2 then None else
-  let c := Z.min (le16 b o) 6 in
-  if zlen b <? o + 2 + 4 * c then None else Some (s_suites (Z.to_nat c) b (o + 2), o + 2 + 4 * c).
+  let c := le16 b o in
+  if zlen b <? o + 2 + 4 * c then None else Some (s_suites (Z.to_nat (Z.min c 6)) b (o + 2), o + 2 + 4 * c).
 
 Definition s_rsn_decode (b : list byte) : option rsn_info :=
   if zlen b <? 6 then None else
